@@ -984,9 +984,13 @@ def r06_11(prog, rep, rid="R06.11"):
                     for a in c.get("a", []):
                         a_ = strip_casts(cfg.resolve(a))
                         el = None
-                        if a_.get("k") == "bin" and a_["op"] == "+" and lv(strip_casts(a_["l"])) == arr:
+                        # the array under its own name or under the name of the temporary that took realloc()'s result
+                        def is_arr(e_):
+                            t_ = lv(strip_casts(e_))
+                            return t_ == arr or tmp.get(t_) == arr
+                        if a_.get("k") == "bin" and a_["op"] == "+" and is_arr(a_["l"]):
                             el = a_
-                        elif a_.get("k") == "un" and a_["op"] == "&" and strip_casts(a_["e"]).get("k") == "idx" and lv(strip_casts(a_["e"])["b"]) == arr:
+                        elif a_.get("k") == "un" and a_["op"] == "&" and strip_casts(a_["e"]).get("k") == "idx" and is_arr(strip_casts(a_["e"])["b"]):
                             el = a_
                         if el is not None:
                             sites.append((b, i, c["fn"], c.get("line", line)))
